@@ -40,7 +40,8 @@ def worker(k, ids):
     os.makedirs(os.path.join(v, "work"))
     sh("git clone -q /repo %s" % repo)
     gm = os.path.join(v, "harness", "go.mod")
-    open(gm, "w").write(open(gm).read().replace("=> /repo", "=> " + repo))
+    txt = open(gm).read().replace("=> /repo", "=> " + repo)
+    open(gm, "w").write(txt)
     env = dict(env0, VERIF_REPO=repo, VERIF_JOBS=str(max(2, 16 // K)))
     for sid in ids:
         d = os.path.join(V, "seeded", sid)
@@ -62,6 +63,8 @@ def worker(k, ids):
                     what = (rp.get("what") or "")[:110] + " | " + str(rp.get("expr") or rp.get("family") or "")[:60]
                 except Exception:
                     pass
+                if r.returncode not in (0, 1):
+                    what = "CHECK FAILED TO RUN: " + r.stdout[-400:].replace("\n", " / ")
                 with lock:
                     res.setdefault(sid, {})[p] = {"exit": r.returncode, "violations": len(vio), "first": vio[:1], "what": what, "s": round(time.time() - t)}
                     print(sid, p, "exit", r.returncode, len(vio), "violation line(s)", vio[:1], "::", what, file=log, flush=True)
